@@ -47,6 +47,22 @@ def metamorphic(ctx, h, backend, n, idx):
                 return
 
 
+def edge_values(open_line):
+    """empty and one-byte values of every type, evicted (three eviction passes), read back, closed,
+    reopened and read back again: a value that is empty must stay empty (not absent, not null)"""
+    from gen_api import hx
+    e = "-"
+    ops = [open_line,
+           f"api Set 7330 {e} 0", f"api Set 7331 00 0", f"api Set 7332 0d0a 0", f"api Append 7333 {e}", f"api SetRange 7334 0 {e}",
+           f"api RPush 6c30 {e}", f"api RPush 6c31 {e} {e} 00", f"api HSet 6830 {e} {e}", f"api HSet 6831 66 {e}", f"api HSet 6832 {e} 76",
+           f"api SAdd 7430 {e}", f"api SAdd 7431 {e} 00", f"api ZAdd 7a30 {e} 0000000000000000", f"api ZAdd 7a31 {e} 8000000000000000"]
+    reads = ["api Get 7330", "api Get 7331", "api Get 7332", "api Get 7333", "api Get 7334", "api StrLen 7330", "api Exists 7330 7333 7334", "api GetSet 7330 -",
+             "api Append 7330 -", "api Get 7330", "api LRange 6c30 0 -1", "api LRange 6c31 0 -1", "api HGetAll 6830", "api HGet 6831 66", "api HGet 6832 -", "api HStrLen 6831 66",
+             "api SMembers 7430", "api SMembers 7431", "api SIsMember 7430 -", "api ZScore 7a30 -", "api ZRangeWithScores 7a31 0 -1", "api Type 7330", "dump"]
+    ops += reads + ["gc", "gc", "gc"] + reads + ["ldump", "close", "reopen", "ldump"] + reads + ["gc", "gc", "gc"] + reads
+    return ops
+
+
 def run(ctx, proofs_ok):
     quick = ctx.tier == "quick"
     ev = {"gc": 0.15, "flush": 0.05, "fail": 0.05, "reopen": 0.01}
@@ -56,7 +72,8 @@ def run(ctx, proofs_ok):
          "events": dict(ev, sleep=0.04)},
         {"label": "all families with dense eviction passes and injected write failures (Pebble)",
          "fams": ["exp", "str", "key", "list", "hash", "set", "zset"], "n": (1200, 4000), "count": (2, 12), "backend": "pebble", "events": ev},
-    ])
+    ], extra=[("empty and one-byte values of every type, evicted and reloaded (memory)", edge_values("open a mem"), False),
+              ("empty and one-byte values of every type, evicted and reloaded (Pebble)", edge_values(f"open a pebble {ctx.work}/pebble-edge"), False)])
     if ctx.violations:
         return
     h = vlib.build_harness(ctx)
